@@ -139,9 +139,14 @@ class Rig:
         return bytes(self.conn(sock)['out'])
 
 
+class _KeepOpen(io.BytesIO):
+    def close(self):
+        pass
+
+
 class _FakeSocket:
     def __init__(self, data):
-        self.f = io.BytesIO(data)
+        self.f = _KeepOpen(data)
 
     def makefile(self, *a, **k):
         return self.f
